@@ -1,6 +1,6 @@
 (** Pinned statements of the C03 property theorems: compiled on every check, so a theorem cannot be
     weakened silently. *)
-From V Require Import Base.Util Gql.Ast C03.Model C03.Spec C03.Witness C03.Proofs C03.Proofs2 C03.Proofs3 C03.Proofs4 C03.Proofs5 C03.Proofs6 C03.Properties.
+From V Require Import Base.Util Gql.Ast C03.Model C03.Spec C03.Witness C03.Proofs C03.Proofs2 C03.Proofs3 C03.Proofs4 C03.Proofs5 C03.Proofs6 C03.Proofs7 C03.Proofs8 C03.Properties.
 
 Check (C03_sound_unique_op_names : forall S D,
   check_operation_document S D = [] -> rule_ok S D R_unique_op_names = true).
@@ -78,6 +78,41 @@ Check (C03_custom_scalar_variable_now_flagged :
   exists p i, check_operation_document w_schema_0 w_doc_3 = [mkErr (UnknownVariable (s "nope")) p i]).
 Check (C03_duplicate_argument_now_flagged :
   exists t p i, check_operation_document w_schema_0 w_doc_4 = [mkErr (TypeMismatch t) p i]).
+Check (C03_sound_full : forall S D,
+  schema_wf S = true -> selsets_nonempty D = true ->
+  check_operation_document S D = [] -> forall r, rule_ok S D r = true).
+Check (C03_sound_full_spec_valid : forall S D,
+  schema_wf S = true -> selsets_nonempty D = true ->
+  check_operation_document S D = [] -> spec_valid S D = true).
+Check (C03_sound_full_sites : forall S D,
+  schema_wf S = true -> check_operation_document S D = [] ->
+  forall x, In x (all_sites S D) -> forall r, site_ok false S D r x = true).
+Check (C03_sound_full_fragment_variables : forall S D,
+  schema_wf S = true -> check_operation_document S D = [] ->
+  forall o f, In o (doc_ops D) -> In f (doc_fragdefs D) -> reached_from D o f = true ->
+  forall x, In x (frag_sites S f) ->
+  forallb (fun u => match find_var o (u_name u), u_type u with
+                    | Some vd, Some t => variable_usage_allowed vd t (u_loc_default u)
+                    | Some _, None => true
+                    | None, _ => false
+                    end) (site_var_uses true S x) = true).
+Check (C03_sound_full_instance :
+  schema_wf w_schema_0 = true /\ selsets_nonempty w_doc_26 = true
+  /\ check_operation_document w_schema_0 w_doc_26 = []
+  /\ map (fun f => (existsb (fun o => reached_from w_doc_26 o f) (doc_ops w_doc_26), uses_undeclared_variable w_schema_0 w_doc_26 f))
+         (doc_fragdefs w_doc_26)
+     = [(true, false); (true, false); (false, true); (false, false); (false, false)]
+  /\ spec_valid w_schema_0 w_doc_26 = true).
+Check (C03_accepted_fields_and_fragments_defined : forall S D,
+  schema_wf S = true -> check_operation_document S D = [] ->
+  Forall (fun x => match x with
+                   | StField (Some p) name _ _ => is_composite p = true /\ exists f, sp_field p (iname name) = Some f
+                   | StSpread _ n =>
+                       exists f, sp_frag D (iname n) = Some f
+                                 /\ exists t, sp_type S (iname (fr_cond f)) = Some t /\ is_composite t = true
+                   | StInline _ c => exists t, sp_type S (iname c) = Some t /\ is_composite t = true
+                   | _ => True
+                   end) (all_sites S D)).
 Print Assumptions C03_sound_unique_op_names.
 Print Assumptions C03_sound_lone_anonymous.
 Print Assumptions C03_sound_unique_fragments.
@@ -104,3 +139,9 @@ Print Assumptions C03_fields_can_merge_not_checked.
 Print Assumptions C03_unspread_fragment_now_flagged.
 Print Assumptions C03_custom_scalar_variable_now_flagged.
 Print Assumptions C03_duplicate_argument_now_flagged.
+Print Assumptions C03_sound_full.
+Print Assumptions C03_sound_full_spec_valid.
+Print Assumptions C03_sound_full_sites.
+Print Assumptions C03_sound_full_fragment_variables.
+Print Assumptions C03_sound_full_instance.
+Print Assumptions C03_accepted_fields_and_fragments_defined.
